@@ -4,7 +4,7 @@ from hypothesis import strategies as st
 from .. import gen, pkg
 from ..plain import INF, Instance, gain_nodes, labeling_losses
 from ..runner import Result, Violation
-from ..solver_common import common_labels, reference, solution_features, validate_output
+from ..solver_common import maybe_alt_families, common_labels, reference, solution_features, validate_output
 
 ID = "C03"
 LEVEL = "exploration"
@@ -115,6 +115,7 @@ def _helper_sets(inp):
 
 
 def check(case):
+    case = maybe_alt_families(case)
     inst = Instance(case)
     labels = common_labels(inst)
     large = bool(case.get("_large"))
